@@ -110,6 +110,44 @@ def overflow_signature(line):
     return sig
 
 
+def hang_signature(line, wait=12):
+    """Start a worker on one case, let it run, attach gdb and return the nickel frames the busy
+    thread is in (intersection over three samples)."""
+    import subprocess
+    import time
+    if ("hang", line) in _GDB_CACHE:
+        return _GDB_CACHE[("hang", line)]
+    sig = "unknown"
+    p = subprocess.Popen([core.harness_bin("c10"), "--worker"], stdin=subprocess.PIPE, stdout=subprocess.DEVNULL, stderr=subprocess.DEVNULL)
+    try:
+        p.stdin.write((line + "\n").encode())
+        p.stdin.flush()
+        time.sleep(wait)
+        samples = []
+        for _ in range(3):
+            if p.poll() is not None:
+                break
+            rc, out = core.sh(["gdb", "-q", "-batch", "-p", str(p.pid), "-ex", "set pagination off", "-ex", "thread apply all bt 40"], timeout=120)
+            fns = set()
+            for m in re.finditer(r"^#\d+\s+(?:0x[0-9a-f]+ in )?(.+?) \(", out, flags=re.M):
+                fn = m.group(1)
+                if "nickel_lang" in fn and "c10::" not in fn:
+                    fns.add(simplify_fn(fn))
+            if fns:
+                samples.append(fns)
+            time.sleep(1.5)
+        if samples:
+            common = set.intersection(*samples)
+            common = {f for f in common if not f.startswith("Program") and "prog_stage" not in f}
+            if common:
+                sig = "+".join(sorted(common)[:5])
+    finally:
+        p.kill()
+        p.wait()
+    _GDB_CACHE[("hang", line)] = sig
+    return sig
+
+
 def findings_of(line, res):
     """[(key, text)] for one case result; also returns (stages dict, resource note)."""
     out = []
@@ -153,7 +191,8 @@ def findings_of(line, res):
         if stage in EVAL_STAGES:
             resource = "timeout:" + stage
         else:
-            out.append(("timeout:%s" % stage, "no answer within %ss in stage %s" % (j["seconds"], stage)))
+            sig = hang_signature(line)
+            out.append(("hang:%s:%s" % (stage, sig), "no answer within %ss in stage %s (busy in: %s)" % (j["seconds"], stage, sig)))
     else:
         out.append(("protocol:missing", "no result line: " + res[:200]))
     return out, stages, resource
